@@ -1,0 +1,9 @@
+//go:build verif
+
+package internal
+
+// VerifSetClient makes the cluster of the given endpoints use cli instead of dialing etcd
+// (verification drivers outside this package script the EtcdClient).
+func VerifSetClient(endpoints []string, cli EtcdClient) {
+	connManager.Set(getClusterKey(append([]string(nil), endpoints...)), cli)
+}
